@@ -99,10 +99,140 @@ def sig_of(msg):
 
 
 def replay(sub, case):
+    if sub == "const":
+        return check_const(case)[0]
     return check_case(case)[0]
 
 
+# ---------------------------------------------------------------- special constants (no exact reference: differential
+# interpreter / generated class, plus the value plain Python arithmetic gives where that is unambiguous)
+
+SPECIAL_KEYS = ["inf", "-inf", "nan", "np64:inf", "np64:-inf", "np64:nan", "np64:1.5", "np64:-2.5", "np32:0.5", "np32:-0.25",
+                "npi64:-3", "npi64:4", "npi32:7", "-0.0", "1e308", "-1e308", "5e-324", "1e-300", "-1e22", "1e22", "0.1", "-0.1",
+                "1/3", "2**70", "-2**70", "123456789012345678", "npc:1-2j", "c:-1.5+0.5j", "c:0-1j", "npc64:0.5+2j"]
+CONST_CONTEXTS = ["copy", "sum", "prod", "pow", "sub", "cmp", "cmp_rev", "max", "min", "ifexpr", "callarg", "arr", "scale",
+                  "quot", "second_phase", "kwarg", "yield_direct", "not_cmp"]
+
+
+def const_method(key, context):
+    K = ["const", ["special", key]]
+    r, c = ["var", "<state>r"], "<p>c"
+    A = lambda rhs: ["assign", c, None, rhs, []]
+    body = {
+        "copy": [A(K)],
+        "sum": [A(["sum", r, K])],
+        "prod": [A(["prod", K, r])],
+        "pow": [A(["pow", K, ["const", 2]])],
+        "sub": [A(["sum", r, ["prod", ["const", -1], K]])],
+        "cmp": [["if", ["cmp", r, "<", K], [A(["const", 1])], [A(["const", 2])]]],
+        "cmp_rev": [["if", ["cmp", K, "<=", r], [A(["const", 1])], [A(["const", 2])]]],
+        "not_cmp": [["if", ["not", ["cmp", K, ">", r]], [A(["const", 1])], [A(["const", 2])]]],
+        "max": [A(["max", K, r])],
+        "min": [A(["min", r, K])],
+        "ifexpr": [A(["if", ["cmp", K, ">", ["const", 0]], K, r])],
+        "callarg": [["call", [c], "<func>g", [K], {}]],
+        "kwarg": [["call", [c], "<func>g", [], {"x": K}]],
+        "arr": [["call", ["a"], "<builtin>array", [["const", 2]], {}], ["assign", "a", [["const", 0]], K, []],
+                ["assign", "a", [["const", 1]], r, []], A(["sum", ["sub", ["var", "a"], [["const", 0]]], ["sub", ["var", "a"], [["const", 1]]]])],
+        "scale": [["assign", "<state>y", None, ["prod", K, ["var", "<state>y"]], []], A(["const", 1]),
+                  ["yield", ["var", "<state>y"], "y", ["var", "<t>"], "final"]],
+        "quot": [A(["quot", r, K])],
+        "second_phase": [A(K), ["switch", "other"]],
+        "yield_direct": [A(["const", 1]), ["yield", K, "s", ["var", "<t>"], "stage1"]],
+    }[context]
+    body = body + [["yield", ["var", c], "s", ["var", "<t>"], "final"]] if context != "second_phase" else body
+    phases = [{"name": "main", "next": "main", "body": body}]
+    if context == "second_phase":
+        phases.append({"name": "other", "next": "other",
+                       "body": [A(["max", ["var", c], K]), ["yield", ["var", c], "s", ["var", "<t>"], "final"]]})
+    return {"phases": phases, "initial": "main", "state": {"r": 1.5, "y": [1.0, -2.0]}, "t0": 0, "dt0": 0.5, "ulen": 2}
+
+
+def plain_python_value(key, context):
+    """What ordinary Python/NumPy arithmetic gives for <p>c; None where that is not clear-cut."""
+    import numpy as np
+    from vlib.tree import special_constant
+    K = special_constant(key)
+    r = 1.5
+    is_nan = isinstance(K, (float, np.floating)) and K != K
+    if isinstance(K, (complex, np.complexfloating)) and context not in ("copy", "sum", "prod", "sub", "quot"):
+        return None
+    if key == "-0.0" and context in ("quot", "scale", "prod"):
+        return None
+    if is_nan and context in ("max", "min"):
+        return None                      # min/max with NaN depends on argument order in Python and not in NumPy
+    try:
+        with np.errstate(all="ignore"):
+            return {"copy": lambda: K, "sum": lambda: r + K, "prod": lambda: K * r, "sub": lambda: r + (-1) * K,
+                    "cmp": lambda: 1 if r < K else 2, "cmp_rev": lambda: 1 if K <= r else 2,
+                    "not_cmp": lambda: 1 if not (K > r) else 2, "max": lambda: max(K, r), "min": lambda: min(r, K),
+                    "ifexpr": lambda: K if K > 0 else r, "quot": lambda: r / K}[context]()
+    except KeyError:
+        return None
+    except Exception:
+        return None
+
+
+def check_const(case):
+    info = {}
+    method = const_method(case["const"], case["context"])
+    plan = {"max_steps": 2, "max_events": 60}
+    try:
+        dag = B.build_dag(method)
+    except Exception as e:
+        return "CodeBuilder/DAGCode raised %s: %s" % (type(e).__name__, str(e)[:120]), info
+    import warnings
+    results = {}
+    with warnings.catch_warnings():
+        warnings.simplefilter("ignore")
+        for name, runner in (("interpreter", B.run_interpreter), ("generated", B.run_generated)):
+            try:
+                h, status, _ = runner(dag, method, plan)
+            except Exception as e:
+                return "%s: setting up / generating raised %s: %s" % (name, type(e).__name__, str(e)[:160]), info
+            results[name] = B.restrict(h, B.persistent_names(method))
+    d = B.first_difference(results["interpreter"], results["generated"], "interpreter", "generated")
+    if d is not None:
+        return d, info
+    info["outcomes"] = sorted({rec.get("outcome") for rec in results["interpreter"]})
+    want = plain_python_value(case["const"], case["context"])
+    if want is not None and results["interpreter"] and "state" in results["interpreter"][0]:
+        info["expected_checked"] = True
+        got = results["interpreter"][0]["state"].get("<p>c")
+        if results["interpreter"][0].get("outcome") == "completed" and got != B.norm(want):
+            return "<p>c is %s after the first step, plain Python arithmetic gives %s" % (B.show(got), B.show(B.norm(want))), info
+    return None, info
+
+
+COMPLEX_CONTEXTS = {"copy", "sum", "prod", "pow", "sub", "callarg", "kwarg", "scale", "yield_direct"}
+
+
+def const_cases():
+    for key in SPECIAL_KEYS:
+        for context in CONST_CONTEXTS:
+            if ("c:" in key or "j" in key) and context not in COMPLEX_CONTEXTS:
+                continue      # ordering complex numbers is ill-typed; complex division is inexact (NumPy and Python round differently)
+            if key == "-0.0" and context in ("prod", "scale"):
+                continue      # the builder's flattening treats -0.0 like 0 and drops the product
+            yield key, context
+
+
+def const_shard(ctx, _n):
+    for key, context in const_cases():
+        if True:
+            case = {"const": key, "context": context}
+            msg, info = check_const(case)
+            classes = ["const_" + context] + ["const_ran_" + str(o) for o in info.get("outcomes", [])]
+            if info.get("expected_checked"):
+                classes.append("const_expected_checked")
+            ctx.note(case, "completed" in info.get("outcomes", []), classes)
+            if msg is not None:
+                ctx.fail("const", case, msg, sig="const " + context + " " + sig_of(msg))
+
+
 def shrink(sub, case):
+    if sub == "const":
+        return case
     return shrink_method_case(case, lambda c: replay(sub, c), sig_of)
 
 
@@ -218,7 +348,7 @@ def shard(ctx, n, max_ops):
         oc = info.get("outcomes", [])
         for f in ("loop", "zero_trip", "loop2", "else", "nested_if", "fail", "switch", "restart", "raise", "yield",
                   "array", "alias", "whole_array", "matmul", "self_update", "multi_result", "zero_result",
-                  "nested_call", "ifexpr", "multi_phase", "uvec_move"):
+                  "nested_call", "ifexpr", "multi_phase", "uvec_move", "triangular", "recall", "kw_reverse", "if_in_then"):
             if f in feats:
                 classes.append("has_" + f)
         for o in oc:
@@ -236,6 +366,7 @@ def shard(ctx, n, max_ops):
 
 
 def run(ctx):
+    ctx.parallel(const_shard, 1, 0)
     if ctx.quick:
         ctx.parallel(shard, 16, 150, 8)
     else:
